@@ -29,10 +29,6 @@ HARNESSES = {
         "c13_pid_refuses": ([1, 4], lambda v: [C.Case("pid_new", [v[0], v[1]], tag="kani")]),
         "c13_oti_wire": ([1] * 12, lambda v: [C.Case("oti_deser", v, tag="kani")]),
     },
-    "C19": {
-        "c19_refuses_invalid": ([8, 2, 1, 2, 1], lambda v: [C.Case("oti_new", v, tag="kani")]),
-        "c19_accepts_valid": ([8, 2, 1, 2, 1], lambda v: [C.Case("oti_new", v, tag="kani")]),
-    },
     "C15": {
         "c15_deg_is_rfc": ([4, 4], lambda v: [C.Case("deg", [v[0], v[1]], tag="kani")]),
         "c15_rand_is_rfc_raw": ([4, 4], lambda v: [C.Case("rand", [v[0], v[1], 4294967295], tag="kani")]),
@@ -40,12 +36,20 @@ HARNESSES = {
     },
 }
 # harnesses whose solve time is dominated by 64-bit dividers: given a short leash, inconclusive when exceeded
-SLOW = {"c19_accepts_valid": 240}
+SLOW = {}
+# harnesses whose code under test panics on purpose: only the sentinel assertion counts as a failure
+SENTINEL = {"c13_pid_refuses": "SENTINEL accepted"}
 TIMEOUT = 600
 
 
-def parse_playback(out, widths):
-    """values drawn by kani::any() in order, from the printed concrete-playback unit test"""
+def parse_playback(out, widths, sentinel=None):
+    """values drawn by kani::any() in order, from the printed concrete-playback unit test (the one generated for
+    the sentinel assertion, when the harness has one)"""
+    if sentinel:
+        i = out.find("Check for `assertion`: \"" + sentinel)
+        if i < 0:
+            return None
+        out = out[i:]
     m = re.search(r"let concrete_vals: Vec<Vec<u8>> = vec!\[(.*?)\];", out, flags=re.S)
     if not m:
         return None
@@ -72,6 +76,10 @@ def run_harness(h):
         return h, "inconclusive", "timeout", round(time.time() - t0, 1)
     if "VERIFICATION:- SUCCESSFUL" in out and "VERIFICATION:- FAILED" not in out:
         return h, "verified", "", round(time.time() - t0, 1)
+    if h in SENTINEL and "VERIFICATION:- FAILED" in out:
+        failed = "\n".join(re.findall(r"Failed Checks: ([^\n]*)", out))
+        if SENTINEL[h] not in failed:
+            return h, "verified", "", round(time.time() - t0, 1)  # only the constructor's own (expected) panics
     if "VERIFICATION:- FAILED" in out:
         return h, "failed", out, round(time.time() - t0, 1)
     return h, "error", out[-3000:], round(time.time() - t0, 1)
@@ -140,7 +148,7 @@ def run(prop_id, rng, rep):
     for h, status, out, secs in results:
         stats["harnesses"][h] = {"status": status, "seconds": secs}
         if status == "failed":
-            vals = parse_playback(out, hs[h][0])
+            vals = parse_playback(out, hs[h][0], SENTINEL.get(h))
             fails = re.findall(r"Failed Checks: ([^\n]*)", out)[:3]
             if vals is not None:
                 extra += hs[h][1](vals)
